@@ -140,11 +140,27 @@ func (cs *caseSpec) candidates(criteria map[string]string) []int {
 				}
 			}
 			if len(out) > 0 {
+				// a selected subset none of whose hosts is healthy hands over to the fallback policy (subset_loadbalancer.go
+				// ChooseHost goes on to the fallback entry when the subset's balancer returns no host; C15 models the same):
+				// "no host only when none is healthy" then speaks about the hosts the fallback offers
+				for _, i := range out {
+					if cs.Healthy[i] {
+						return out
+					}
+				}
+				if fb := cs.fallbackSet(all); fb != nil {
+					return fb
+				}
 				return out
 			}
 			break
 		}
 	}
+	return cs.fallbackSet(all)
+}
+
+// fallbackSet: the hosts the configured fallback policy offers (nil: no fallback).
+func (cs *caseSpec) fallbackSet(all []int) []int {
 	switch cs.Subset.Fallback {
 	case 1:
 		return all
